@@ -126,6 +126,7 @@ func c11FindCalls(fn *ssa.Function, pkg string, is func(ssa.CallInstruction) boo
 }
 
 func c11(c *eng.Ctx) {
+	defer c11Extra(c)
 	c.Rule("R1", "no conditional skipping: every path through ClusterInfo.Sync that may return nil (the name-mismatch return excepted) passes all seven sub-syncers — feature gates, ResetLimiter, flow-control Sync, secure serving, endpoints, policy store, logging store — each fed from the synced object (gates before ResetLimiter)", 15)
 	c.Rule("R2", "gates are a function of the object: every MutableFeatureGate.Set reachable from Sync acts on a fresh DeepCopy() of the defaults created in the same call and installed afterwards; every stored gate is such a copy; an absent annotation resets to the defaults", 5)
 	c.Rule("R3", "the latest object is applied: the object the queue's sync handler passes to ClusterInfo.Sync / CreateClusterInfo derives from the lister's Get result, not from the dequeued item (the pass-through queue requeues the same pointer after a failure)", 2)
@@ -942,4 +943,67 @@ func c11Fixtures(c *eng.Ctx) {
 		}
 		c.Fixture("C11.loop/"+name, fmt.Sprint(want), fmt.Sprint(got))
 	}
+}
+
+
+// ---------------------------------------------------------------------------------------
+// Added after seeded changes C11-1 / C11-2.
+func c11Extra(c *eng.Ctx) {
+	c.Rule("R5", "the last-applied flow-control spec is recorded whenever the limiter table is touched: in syncLocalFlowControls the (deferred) store of currentFlowControlSpec is established before any Store/Delete/Sync of a limiter, on every path — otherwise a history A → ∅ → A is short-circuited by the unchanged test and the schemas stay removed", 2)
+	c.Rule("R6", "an object is applied only after its names were checked (see C10.R2p): a refused update must not have replaced the cluster's server-name list already", 2)
+	if sl := c.MustMethod(pkgFCRoot, "upstreamLimiter", "syncLocalFlowControls"); sl != nil {
+		// the recording: a Store on the currentFlowControlSpec field, directly or in a deferred closure
+		records := func(f *ssa.Function) bool {
+			found := false
+			eng.Instrs(f, func(ins ssa.Instruction) {
+				if ci, ok := ins.(ssa.CallInstruction); ok && eng.IsCall(ci, "(*sync/atomic.Value).Store") {
+					if eng.FieldAddrOf(eng.Receiver(ci), pkgFCRoot+".upstreamLimiter", "currentFlowControlSpec") {
+						found = true
+					}
+				}
+			})
+			return found
+		}
+		isRecord := func(ins ssa.Instruction) bool {
+			switch n := ins.(type) {
+			case *ssa.Defer:
+				if mc, ok := n.Call.Value.(*ssa.MakeClosure); ok {
+					if f, ok := mc.Fn.(*ssa.Function); ok {
+						return records(f)
+					}
+				}
+				return eng.IsCall(n, "(*sync/atomic.Value).Store") && eng.FieldAddrOf(eng.Receiver(n), pkgFCRoot+".upstreamLimiter", "currentFlowControlSpec")
+			case *ssa.Call:
+				return eng.IsCall(n, "(*sync/atomic.Value).Store") && eng.FieldAddrOf(eng.Receiver(n), pkgFCRoot+".upstreamLimiter", "currentFlowControlSpec")
+			}
+			return false
+		}
+		n := 0
+		for _, fn := range eng.WithClosures(sl) {
+			for _, ci := range eng.Calls(fn) {
+				mut := eng.IsCall(ci, "(*"+pkgFCRemote+".FlowControlMap).Store", "(*"+pkgFCRemote+".FlowControlMap).Delete", "("+pkgFCRemote+".LocalFlowControlWrapper).Sync")
+				if !mut {
+					continue
+				}
+				n++
+				// closures (the Range callback) run after the point where they are created in sl
+				site := ssa.Instruction(ci)
+				if fn != sl {
+					eng.Instrs(sl, func(ins ssa.Instruction) {
+						if mc, ok := ins.(*ssa.MakeClosure); ok && mc.Fn == ssa.Value(fn) {
+							site = mc
+						}
+					})
+				}
+				ok := site.Parent() == sl && eng.AlwaysBefore(sl, site, isRecord)
+				c.Check("R5", sl, fmt.Sprintf("limiter mutation#%d ⇒ applied spec recorded", n), ci.Pos(), ok,
+					"a path changes the limiter table (delete/create/resize) without the last-applied spec being recorded (e.g. an early return before the deferred store): the next identical-to-recorded spec is skipped as unchanged although the table no longer matches it")
+			}
+		}
+		if n < 2 {
+			c.Fail("R5", sl, "limiter mutations", sl.Pos(), "Store/Delete/Sync of limiters not found")
+		}
+	}
+	x := &c10x{c: c, sl: c.Slicer(), sa: c.Slicer().WithArgs(), ord: map[string]int{}}
+	c10ApplyAfterNameCheck(x, "R6")
 }
